@@ -86,6 +86,7 @@ func Run(repo, out string) (Facts, []string) {
 	g.cli()
 	g.peg()
 	g.templates()
+	g.report()
 	keys := make([]string, 0, len(g.facts))
 	for k := range g.facts {
 		keys = append(keys, k)
